@@ -117,8 +117,14 @@ def _returned_as_computed(c, fn):
 def run(prog, tier):
     # axis order of the vectorised forms first: a definite scramble stands even when the per-point rules below cannot read a
     # restructured predictor
+    # "at all query points, single and batched": the points the derivative predictors work on are the caller's, normalised by
+    # process_points without exchanging their axes - the clause C16 shares with C02, decided there
+    from .common import borrow
+    qn = [o for o in borrow(prog, tier, "C02", {"query-normalisation"}, "query-points-as-given",
+                            "the derivative predictors are evaluated at the caller's points (row = point) only if process_points keeps the axes")
+          if any(k_ in o.construct for k_ in ("process_points", ".gradient", ".spatial_derivatives"))]
     from .axrules import gp_axis_obligations
-    ax = gp_axis_obligations(prog, "axis-order", ["gradient", "spatial_derivatives"])
+    ax = qn + gp_axis_obligations(prog, "axis-order", ["gradient", "spatial_derivatives"])
     # every kernel / mean evaluation of the two derivative predictors gets its own part of the hyper-parameter vector
     from .gpm import routing_obligations
     ax = ax + [o for o in routing_obligations(prog, "GpRegressor", "hyperparameter-routing", REL)
